@@ -260,6 +260,28 @@ func C20(blk *hist.Block) []Finding {
 			}
 			if buy != nil {
 				out = append(out, Finding{"COUNT", "observed:purchase", ""})
+				// the owner may have acted on the name earlier in the same block: a sale (or its
+				// cancellation) signed by the owner is folded into the record the purchase meets; after a
+				// renewal in the same block the expiry arithmetic of the purchase is not attributable
+				pdEff := *pd
+				renewedBefore := false
+				for _, e := range es {
+					if e.idx >= buy.idx || e.signer != pd.Owner {
+						continue
+					}
+					switch e.kind {
+					case "DOMAIN_SELL":
+						if c, _ := pField(e.p, "cancelSale").(bool); c {
+							pdEff.OnSale, pdEff.SalePrice = false, nil
+						} else {
+							pdEff.OnSale = true
+							pdEff.SalePrice, _ = json.Marshal(PAmount(e.p, "price").String())
+						}
+					case "DOMAIN_RENEW":
+						renewedBefore = true
+					}
+				}
+				pd := &pdEff
 				offering := PAmount(buy.p, "offering")
 				buyer := PString(buy.p, "buyer")
 				expired := pd.Expire < blk.H-1 // by the later of the two height readings it is certainly expired
@@ -290,7 +312,7 @@ func C20(blk *hist.Block) []Finding {
 							}
 						}
 					}
-					if !ok {
+					if !ok && !renewedBefore {
 						out = append(out, Finding{"C20", "C20/expiry/purchase", fmt.Sprintf("block %d: %s bought for %s (asking %s): expiry moved from %d to %d; the remainder buys %d blocks", blk.H, n, offering, pd.Price(), pd.Expire, cd.Expire, floorDiv(new(big.Int).Sub(offering, pd.Price()), pPer))})
 					}
 				} else if maybeExpired {
@@ -312,7 +334,7 @@ func C20(blk *hist.Block) []Finding {
 							}
 						}
 					}
-					if !ok {
+					if !ok && !renewedBefore {
 						out = append(out, Finding{"C20", "C20/expiry/purchase-expired", fmt.Sprintf("block %d: expired name %s bought for %s: new expiry %d; (payment - base) / per-block buys %d blocks from height %d", blk.H, n, offering, cd.Expire, floorDiv(new(big.Int).Sub(offering, pBase), pPer), blk.H-1)})
 					}
 				} else {
